@@ -142,7 +142,10 @@ def run_ec(ctx, spec):
     if mixed:
       # weak neighbours: structured key, close pair, invalid point, other curve
       base = rng.below(n - 1000) + 1
-      extra = [gen.ec_key_from_priv(curve, (rng.bits(32) | 1) << 8),
+      dupd = (rng.bits(32) | 1) << 24
+      extra = [gen.ec_key_from_priv(curve, dupd),
+               gen.ec_key_from_priv(curve, dupd),     # the same key twice
+               gen.ec_key_from_priv(curve, (rng.bits(32) | 1) << 8),
                gen.ec_key_from_priv(curve, base),
                gen.ec_key_from_priv(curve, base + 7),
                workloads.ec_hostile_key(rng, gen.curve_id(curve), 'offcurve')[0],
@@ -154,7 +157,24 @@ def run_ec(ctx, spec):
     batch = keys + extra
     order = list(range(len(batch)))
     rng.shuffle(order)
+    if mixed:
+      # duplicates first, healthy keys directly in front of the close pair
+      k0 = len(keys)
+      order = [k0, k0 + 1] + list(range(k0)) + [k0 + 3, k0 + 4, k0 + 2] + list(
+          range(k0 + 5, len(batch)))
     ret = paranoid.CheckAllEC([batch[i] for i in order])
+    if mixed:
+      # the same artifacts once more, fresh and in random order
+      again = [type(b)().FromString(b.SerializeToString()) for b in batch]
+      for b in again:
+        b.ClearField('test_info')
+      rng.shuffle(again)
+      paranoid.CheckAllEC(again)
+      for b in again:
+        for d, k in zip(ds, keys):
+          if b.ec_info == k.ec_info and b.ec_info.curve_type == gen.curve_id(
+              curve) and (b.test_info.weak and not k.test_info.weak):
+            k.test_info.CopyFrom(b.test_info)
     ctx.count('mixed_batches' if mixed else 'healthy_batches')
     for d, k in zip(ds, keys):
       ctx.count('evaluations')
